@@ -28,7 +28,7 @@ def emitUpdate (s : St) (m : Mode) (mask : Option Mask) (w : WOpts) : List ModeE
   | .ok (some new), none => [.add new]                       -- an upsert that created the record
   | _, _ => []
 
-def emitDelete (s : St) (id : String) (am : Bool) (ex : Option Mode) : List ModeEvent :=
+def emitDelete (s : St) (id : String) (am : Bool) (ex : DOpts) : List ModeEvent :=
   match (deleteMode s id am ex).2, find s id with
   | .ok _, some old => [.remove old]
   | _, _ => []
@@ -41,7 +41,7 @@ def modeEvents (s : St) : Op → List ModeEvent
   | .delete id am ex => emitDelete s id am ex
   | .sCreate m cands => if m.id ≠ "" then [] else emitCreateOrAdd s m cands
   | .sUpdate m mask => if m.id = "" then [] else emitUpdate s m mask {}
-  | .sDelete id am => if id = "" then [] else emitDelete s id am none
+  | .sDelete id am => if id = "" then [] else emitDelete s id am {}
   | _ => []
 
 /-- the operations that call `activeMode.Set` -/
@@ -140,7 +140,7 @@ theorem emitUpdate_view (s : St) (hi : Inv p s) (m : Mode) (mask : Option Mask) 
                   exact (replaceMode_self hi.nodup hmem).symm
                 · simp [heq, applyEvent]
 
-theorem emitDelete_view (s : St) (id : String) (am : Bool) (ex : Option Mode) :
+theorem emitDelete_view (s : St) (id : String) (am : Bool) (ex : DOpts) :
     (emitDelete s id am ex).foldl applyEvent s.modes = (deleteMode s id am ex).1.modes ∧
     (emitDelete s id am ex).length ≤ 1 := by
   unfold emitDelete deleteMode
@@ -152,9 +152,12 @@ theorem emitDelete_view (s : St) (id : String) (am : Bool) (ex : Option Mode) :
     | none => cases am <;> simp
     | some old =>
       obtain ⟨_, hid⟩ := find_some hf
-      by_cases he : expectedFails ex old = true
-      · simp [he]
-      · simp [he, applyEvent, hid]
+      cases hck : dcheckFails ex old with
+      | some c => simp [hck]
+      | none =>
+        by_cases he : expectedFails ex.expected old = true
+        · simp [hck, he]
+        · simp [hck, he, applyEvent, hid]
 
 /-- One operation: folding its events into a view that equals the modes gives the modes afterwards, and
 there is at most one event. -/
@@ -209,10 +212,10 @@ theorem modeEvents_view (s : St) (hi : Inv p s) (op : Op) (ht : op.Tame) :
     by_cases h : id = ""
     · simp [h]
     · simp only [h, if_false]
-      have := emitDelete_view s id am none
+      have := emitDelete_view s id am {}
       refine ⟨?_, this.2⟩
       rw [this.1]
-      cases hr : deleteMode s id am none with
+      cases hr : deleteMode s id am {} with
       | mk s' r => cases r <;> rfl
   | sChangeActive id now =>
     simp only [modeEvents, step]
@@ -225,6 +228,7 @@ theorem modeEvents_view (s : St) (hi : Inv p s) (op : Op) (ht : op.Tame) :
     cases normalMode s with
     | none => rfl
     | some n => simp only [changeActive]; cases find s n.id <;> rfl
+  | sCreateNil => simp [modeEvents, step]
 
 /-- After ANY number `k` of events of a run, the subscriber's view is the mode list of a state that
 satisfies the invariant. -/
@@ -295,6 +299,7 @@ theorem setsActive_changed (s : St) (op : Op) (h1 : setsActive op = true) (h2 : 
   | findMode _ => simp [setsActive] at h1
   | sCreate _ _ => simp [setsActive] at h1
   | sUpdate _ _ => simp [setsActive] at h1
+  | sCreateNil => simp [setsActive] at h1
   | sDelete _ _ => simp [setsActive] at h1
 
 end ScVerif.C19
